@@ -179,3 +179,197 @@ func TestC06MultiRenderGenerate(t *testing.T) {
 		t.Errorf("only %d of 600 cases tagged", tagged)
 	}
 }
+
+// Stream settings-as-paths: the oracle rejects the outputs of a File that takes a path spelled
+// like its package name / canonical path for the local package, and the stream reaches those
+// shapes for all three constructors.
+func TestSettingsAsPathsOracle(t *testing.T) {
+	// NewFile("log") referencing "log" and "io": nothing is local
+	rc := &RefCase{Paths: []string{"log", "io"}, Anon: map[string]bool{}, Hints: map[string][2]string{},
+		Rendered: map[int]bool{0: true, 1: true}, Hidden: map[int]bool{}}
+	c := &Case{Meta: map[string]interface{}{"rc": rc}}
+	for _, p := range []Property{c04{}, c06{}} {
+		if m := p.Oracle(c, []hist.Obs{{Kind: "write", Out: "package log\n\nimport (\n\t\"io\"\n\t\"log\"\n)\n\nvar _ = log.V0_1\nvar _ = io.V1_2\n"}}); m != "" {
+			t.Fatalf("%s: good output rejected: %s", p.ID(), m)
+		}
+		if m := p.Oracle(c, []hist.Obs{{Kind: "write", Out: "package log\n\nimport \"io\"\n\nvar _ = V0_1\nvar _ = io.V1_2\n"}}); !strings.Contains(m, "neither local nor dot-imported") {
+			t.Errorf("%s: bare reference to a path spelled like the package name accepted: %q", p.ID(), m)
+		}
+	}
+	// NewFilePathName("a.b/c", "main") with CanonicalPath "x.y/c" referencing "x.y/c": only a.b/c is local
+	rc2 := &RefCase{Paths: []string{"x.y/c", "a.b/c"}, Local: "a.b/c", Anon: map[string]bool{}, Hints: map[string][2]string{},
+		Rendered: map[int]bool{0: true, 1: true}, Hidden: map[int]bool{}}
+	c2 := &Case{Meta: map[string]interface{}{"rc": rc2}}
+	if m := (c06{}).Oracle(c2, []hist.Obs{{Kind: "write", Out: "package main // import \"x.y/c\"\n\nimport c \"x.y/c\"\n\nvar _ = c.V0_1\nvar _ = V1_2\n"}}); m != "" {
+		t.Fatalf("good output rejected: %s", m)
+	}
+	if m := (c06{}).Oracle(c2, []hist.Obs{{Kind: "write", Out: "package main // import \"x.y/c\"\n\nvar _ = V0_1\nvar _ = V1_2\n"}}); !strings.Contains(m, "neither local nor dot-imported") {
+		t.Errorf("bare reference to the canonical path accepted: %q", m)
+	}
+	r := rand.New(rand.NewSource(5))
+	n := map[string]int{}
+	for i := 0; i < 1500; i++ {
+		c := settingsCase(r)
+		if m := (c06{}).Oracle(c, hist.NewWorld().Exec(c.Hist)); m != "" {
+			t.Fatalf("oracle fails on the unchanged tree: %s\n%s", m, c.Hist.Sexp())
+		}
+		ctor := ""
+		for _, tg := range c.Tags {
+			if strings.HasPrefix(tg, "ctor=") {
+				ctor = tg
+			}
+		}
+		for _, tg := range c.Tags {
+			n[tg]++
+			if strings.HasPrefix(tg, "ref=") {
+				n[ctor+" "+tg]++
+			}
+		}
+		// honest tags: ref=package-name means a rendered reference whose path is the constructor's name
+		if hasTag(c, "ref=package-name") {
+			rc := c.Meta["rc"].(*RefCase)
+			name := c.Hist[0].A
+			if c.Hist[0].Kind == "newfilepathname" {
+				name = c.Hist[0].B
+			}
+			if c.Hist[0].Kind == "newfilepath" || !rc.Referenced(name) {
+				t.Fatalf("tag ref=package-name is not honest: %s", c.Hist.Sexp())
+			}
+		}
+	}
+	for _, want := range []string{"ctor=newfile ref=package-name", "ctor=newfilepathname ref=package-name", "ctor=newfilepath ref=inferred-name",
+		"ctor=newfile ref=canonical", "ctor=newfilepath ref=canonical", "ctor=newfilepathname ref=canonical", "ctor=newfile ref=prefix", "ctor=newfile ref=hint-name",
+		"ctor=newfilepath ref=local", "ctor=newfilepathname ref=local", "name=path", "canonical=local", "anon=package-name", "hidden=package-name", "hidden=canonical"} {
+		if n[want] < 5 {
+			t.Errorf("shape %q reached only %d times in 1500 cases", want, n[want])
+		}
+	}
+}
+
+// Stream op-order: File.Anon discards the registration of a path, so the output after it is
+// judged like a first rendering under the hint in force; everything else keeps its form.
+func TestC06OpOrderOracle(t *testing.T) {
+	info := &c06multi{Paths: []string{"d.e/f", "g.h/i"}}
+	h := hist.History{
+		{Kind: "newfile", F: 0, A: "p"},
+		{Kind: "importalias", F: 0, A: "d.e/f", B: "."},
+		{Kind: "importalias", F: 0, A: "g.h/i", B: "."},
+		{Kind: "render", F: 0}, {Kind: "imports", F: 0},
+		{Kind: "anon", F: 0, Strs: []string{"d.e/f"}},
+		{Kind: "render", F: 0}, {Kind: "imports", F: 0},
+	}
+	c := &Case{Hist: h, Meta: map[string]interface{}{"c06multi": info}}
+	w := func(s string) hist.Obs { return hist.Obs{Kind: "write", Out: s} }
+	tab := hist.Obs{Kind: "imports", Imports: []hist.Import{{Path: "d.e/f", Name: ".", Alias: true}, {Path: "g.h/i", Name: ".", Alias: true}}}
+	file := "package p\n\nimport (\n\t. \"d.e/f\"\n\t. \"g.h/i\"\n)\n\nvar _ = V0_1\nvar _ = V1_2\n"
+	if m := (c06{}).Oracle(c, []hist.Obs{w(file), tab, w(file), tab}); m != "" {
+		t.Fatalf("good history rejected: %s", m)
+	}
+	// the seeded shape: the dot hint is forgotten after the Anon
+	bad := "package p\n\nimport (\n\tf \"d.e/f\"\n\t. \"g.h/i\"\n)\n\nvar _ = f.V0_1\nvar _ = V1_2\n"
+	tab2 := hist.Obs{Kind: "imports", Imports: []hist.Import{{Path: "d.e/f", Name: "f", Alias: true}, {Path: "g.h/i", Name: ".", Alias: true}}}
+	if m := (c06{}).Oracle(c, []hist.Obs{w(file), tab, w(bad), tab2}); !strings.Contains(m, "declared a dot-import at its first rendering but is qualified by f") {
+		t.Errorf("lost dot-import after Anon accepted: %q", m)
+	}
+	// the Anon'd path left as `_` although it is written
+	bad2 := "package p\n\nimport (\n\t_ \"d.e/f\"\n\t. \"g.h/i\"\n)\n\nvar _ = V0_1\nvar _ = V1_2\n"
+	if m := (c06{}).Oracle(c, []hist.Obs{w(file), tab, w(bad2), tab}); !strings.Contains(m, "imports \"d.e/f\" as _ although it was written") {
+		t.Errorf("written path imported as _ accepted: %q", m)
+	}
+	// without the dot hint, a bare reference after the Anon is rejected as well
+	h2 := append(hist.History{}, h...)
+	h2[1] = hist.Op{Kind: "importalias", F: 0, A: "d.e/f", B: "zz"}
+	c2 := &Case{Hist: h2, Meta: map[string]interface{}{"c06multi": info}}
+	q := "package p\n\nimport (\n\tzz \"d.e/f\"\n\t. \"g.h/i\"\n)\n\nvar _ = zz.V0_1\nvar _ = V1_2\n"
+	tabq := hist.Obs{Kind: "imports", Imports: []hist.Import{{Path: "d.e/f", Name: "zz", Alias: true}, {Path: "g.h/i", Name: ".", Alias: true}}}
+	if m := (c06{}).Oracle(c2, []hist.Obs{w(q), tabq, w(q), tabq}); m != "" {
+		t.Fatalf("good history rejected: %s", m)
+	}
+	if m := (c06{}).Oracle(c2, []hist.Obs{w(q), tabq, w(file), tab}); !strings.Contains(m, "written bare at its first rendering") {
+		t.Errorf("bare reference after Anon accepted: %q", m)
+	}
+}
+
+// The op-order stream holds on the unchanged tree, covers every ordered pair of operations in
+// every slot pair for every subject kind, and its before/after tags are honest.
+func TestC06OpOrderGenerate(t *testing.T) {
+	cases := c06OpOrderCases(rand.New(rand.NewSource(4)), "quick")
+	n := map[string]int{}
+	for _, c := range cases {
+		got := hist.NewWorld().Exec(c.Hist)
+		if m := (c06{}).Oracle(c, got); m != "" {
+			t.Fatalf("oracle fails on the unchanged tree: %s\n%s", m, c.Hist.Sexp())
+		}
+		kind := ""
+		for _, tg := range c.Tags {
+			if strings.HasPrefix(tg, "subject=") {
+				kind = tg
+			}
+		}
+		for _, tg := range c.Tags {
+			n[tg]++
+			if strings.HasPrefix(tg, "order=") || strings.HasPrefix(tg, "after-first-rendering=") {
+				n[kind+" "+tg]++
+			}
+		}
+		// honest: after-first-rendering=<op> means that some output BEFORE an operation of that kind
+		// already wrote the subject
+		subject := c.Meta["c06multi"].(*c06multi).Paths[0]
+		rc := &RefCase{Paths: c.Meta["c06multi"].(*c06multi).Paths}
+		written, oi := false, 0
+		after := map[string]bool{}
+		for _, op := range c.Hist {
+			switch op.Kind {
+			case "imports":
+				oi++
+			case "render", "rcode":
+				src := got[oi].Out
+				oi++
+				if op.Kind == "rcode" {
+					src, _ = c08Wrap(src)
+				}
+				qm, _ := rc.QualifierMap(src)
+				if _, ok := qm[subject]; ok {
+					written = true
+				}
+			case "anon":
+				after["anon"] = after["anon"] || written
+			case "importname":
+				after["name"] = after["name"] || written
+			case "importnames":
+				after["names"] = after["names"] || written
+			case "importalias":
+				if op.A != subject {
+					continue
+				}
+				if op.B == "." {
+					after["dot"] = after["dot"] || written
+				} else {
+					after["alias"] = after["alias"] || written
+				}
+			}
+		}
+		for _, k := range opOrderKinds {
+			if after[k] != hasTag(c, "after-first-rendering="+k) {
+				t.Fatalf("tag after-first-rendering=%s (%v) is not honest for %s", k, hasTag(c, "after-first-rendering="+k), c.Hist.Sexp())
+			}
+		}
+	}
+	for _, kind := range []string{"std", "std-collide", "user", "user-collide", "local"} {
+		for _, a := range opOrderKinds {
+			for _, b := range opOrderKinds {
+				if kind == "local" && (a == "anon" || b == "anon") {
+					continue
+				}
+				if n["subject="+kind+" order="+a+"-then-"+b] < 30 {
+					t.Errorf("%s: order %s-then-%s has %d cases", kind, a, b, n["subject="+kind+" order="+a+"-then-"+b])
+				}
+			}
+			if a != "anon" || kind != "local" {
+				if n["subject="+kind+" after-first-rendering="+a] < 50 {
+					t.Errorf("%s: %s after the first rendering has %d cases", kind, a, n["subject="+kind+" after-first-rendering="+a])
+				}
+			}
+		}
+	}
+}
